@@ -693,6 +693,24 @@ def _check_users(case, ctx):
         raise Violation("user_count", "%d users after adding %d" %
                         (len(users), n), tags)
     ctx.nontrivial(rotated and n >= 1)
+    if cls in ("Cell", "CellSquare", "Cell3Sec"):
+        # a wrapped copy of the cell that shows its users: a congruent copy,
+        # users included (same offsets from the cell centre)
+        from pyphysim.cell import cell as _cell
+        wpos = pos + complex(3.0 * R, -2.0 * R)
+        with _watchdog(tags):
+            w = _cell.CellWrap(wpos, obj, include_users_bool=True)
+            wu = list(w.users)
+        ctx.label("users:wrapped_copy")
+        if len(wu) != n:
+            raise Violation("wrap_users", "wrapped copy shows %d of %d users"
+                            % (len(wu), n), tags)
+        for a, b in zip(users, wu):
+            _close(ctx, "wrap_users", abs((complex(b.pos) - wpos) -
+                                          (complex(a.pos) - pos)),
+                   RTOL * (L + abs(wpos)), "user at offset %r from its cell "
+                   "is shown at offset %r in the wrapped copy" %
+                   (complex(a.pos) - pos, complex(b.pos) - wpos), tags)
     unrot = pos + np.array(obj.vertices_no_trans_no_rotation, dtype=complex)
     if mode in ("sector", "sectors"):
         sr = R / math.sqrt(3.0)
